@@ -60,6 +60,7 @@ type c13Outcome struct {
 	States     []string
 	Stalled    string // non-empty: description of where the world got stuck
 	Fired      []string
+	FiredSites []string // per fired crash: "<key of the last durable effect before the death>|<key of the effect that was next>"
 	Resurfaced string
 	Skipped    int
 	Torn       int // torn crashes whose journal cut really fell inside the record of the crashing write
@@ -180,6 +181,7 @@ func c13Execute(p c13Plan, root string) (out c13Outcome) {
 		size int64
 	}
 	var tornCut func() // set by a torn crash: applied by restart once the database handle is released
+	afterPending := false
 	install = func() {
 		nd := w.Nodes[cn]
 		hook := func(op, key, phase string) {
@@ -189,13 +191,33 @@ func c13Execute(p c13Plan, root string) (out c13Outcome) {
 				return
 			}
 			idx := count
+			prevKey := "end"
+			if n := len(out.Sites); n > 0 {
+				prevKey = out.Sites[n-1].Key
+			}
 			if phase == "before" {
 				out.Sites = append(out.Sites, c13Effect{op, key})
 				if key != "board:send" {
 					jBefore.file, jBefore.size = journalFile(nd.LDB.VerifPath())
 				}
+				if afterPending {
+					// "after effect k" is realised as a death right before the next durable effect of this run, whichever
+					// it is: the crash point is then named by the effects actually observed around it (runs with n >= 3
+					// are not effect-for-effect reproducible, deals arrive in map order)
+					afterPending = false
+					count++
+					out.Sites[len(out.Sites)-1] = c13Effect{op + "(crashed-before)", key}
+					out.FiredSites = append(out.FiredSites, prevKey+"|"+key)
+					out.Fired = append(out.Fired, fmt.Sprintf("after %s = before %s %s (effect %d)", prevKey, op, key, idx))
+					panic(crashSentinel{fmt.Sprintf("before:%s:%s", op, key)})
+				}
 			} else {
 				idx = count - 1
+				if n := len(out.Sites); n > 1 {
+					prevKey = out.Sites[n-2].Key
+				} else {
+					prevKey = "end"
+				}
 			}
 			for ci, c := range p.Crashes {
 				cphase := c.Phase
@@ -204,6 +226,15 @@ func c13Execute(p c13Plan, root string) (out c13Outcome) {
 				}
 				if !fired[ci] && c.Effect == idx && cphase == phase {
 					fired[ci] = true
+					if c.Phase == "after" {
+						if p.SkipKnown && strings.HasSuffix(key, "_fsm_state") {
+							// may be the recorded D12 window (round state written, operation write next): multi-crash plans stay out of it
+							out.Skipped++
+							continue
+						}
+						afterPending = true
+						continue
+					}
 					if p.SkipKnown && (phase == "before" || c.Phase == "torn") && strings.HasSuffix(key, "_operations") && len(out.Sites) >= 2 && strings.HasSuffix(out.Sites[len(out.Sites)-2].Key, "_fsm_state") {
 						out.Skipped++
 						continue
@@ -221,9 +252,12 @@ func c13Execute(p c13Plan, root string) (out c13Outcome) {
 								}
 							}
 							out.Fired = append(out.Fired, fmt.Sprintf("torn %s %s (effect %d, journal cut at byte %d of %d..%d)", op, key, idx, cut, jBefore.size, size))
+							out.FiredSites = append(out.FiredSites, prevKey+"|"+key)
 							panic(crashSentinel{fmt.Sprintf("torn:%s:%s", op, key)})
 						}
 						// the write did not land in the journal tail (journal rotated): an ordinary crash after the write
+						afterPending = true
+						continue
 					}
 					if phase == "before" {
 						count++ // the effect is consumed by the crash (it never happens)
@@ -231,6 +265,7 @@ func c13Execute(p c13Plan, root string) (out c13Outcome) {
 						out.Sites = append(out.Sites, c13Effect{op + "(crashed-before)", key})
 					}
 					out.Fired = append(out.Fired, fmt.Sprintf("%s %s %s (effect %d)", phase, op, key, idx))
+					out.FiredSites = append(out.FiredSites, prevKey+"|"+key)
 					panic(crashSentinel{fmt.Sprintf("%s:%s:%s", phase, op, key)})
 				}
 			}
@@ -556,6 +591,9 @@ func c13Run(t *testing.T, st *vstat.Stats, p c13Plan) *viol {
 	}
 	for i := 0; i < o.Skipped; i++ {
 		st.Excluded("stalled:crash-between:fsm_state|operations")
+	}
+	if len(o.FiredSites) > 0 {
+		sites = o.FiredSites // what actually surrounded the death in this run
 	}
 	sig := strings.Join(sites, "+")
 	sig = strings.ReplaceAll(sig, world.Topic+"_", "")
